@@ -126,10 +126,10 @@ def GROUP(target, spec, scope):
             if key is STOP:
                 tree[keyspec] = STOP
                 continue
+            bucket = (_spec_id, key)  # cannot collide with id(spec) or an aggregator key
             if key not in acc:
-                # TODO: guard against key == id(spec)
-                tree[key] = {}
-            scope[ACC_TREE] = tree[key]
+                tree[bucket] = {}
+            scope[ACC_TREE] = tree[bucket]
             result = recurse(valspec)
             if result is STOP:
                 tree[keyspec] = STOP
